@@ -379,6 +379,17 @@ where
             None => Some(false),
         }
     }
+    /// `delay_flush` with a fresh flush guard on the live slot guard `s` (in whatever mode it is)
+    fn delay(&mut self, s: usize) -> bool {
+        let Some(fg) = self.owner().map(|o| o.flush_guard()) else { return false };
+        if let Some(Obj::S(sg)) = self.objs.get_mut(&key("s", s)) {
+            sg.delay_flush(fg);
+            trace::ev(json!({"ev":"Delay","i":s}));
+            true
+        } else {
+            false
+        }
+    }
     /// a second open of an already opened slot (a wait-mode attempt hands over a fresh flush
     /// guard, which is dropped again when no slot guard comes back)
     fn reopen(&mut self, s: usize, mode: &str) -> Option<bool> {
@@ -585,6 +596,7 @@ where
                 "NewGuard" => w.new_guard(i),
                 "NewForce" => w.new_force(i),
                 "CloneHandle" => w.clone_handle(i),
+                "DelayFlush" => w.delay(i),
                 "OpenSlot" => {
                     let r = w.open(i, m);
                     res = json!(r);
@@ -852,6 +864,7 @@ where
             "CloneHandle" => w.clone_handle(i),
             "OpenSlotwait" => w.open(i, "wait") == Some(true),
             "OpenSlotdiscard" => w.open(i, "discard") == Some(true),
+            "DelayFlush" => w.delay(i),
             "WaitForData" => {
                 // a LazySlot has no wait_for_data: the value stays in the channel (same observation)
                 if w.wait(i) == Some(-2) {
@@ -990,6 +1003,9 @@ where
             }
             "open" => {
                 w.open(i, k);
+            }
+            "delay" => {
+                w.delay(i);
             }
             "reopen" => {
                 w.reopen(i, k);
